@@ -12,6 +12,9 @@
                                       `(T[i] + g(…)) ⊕ h(…)`, and neither `g` nor `h` reads entry `i`);
      A3  `spec_init_injective`        hence the whole initialisation `(K, IV) ↦ (P, Q)` is injective.
   B. Model of rand_hc (`Model/Hc128.lean`), through `Hc128R.init_refine` (C02: `init` computes A):
+     B0  `expansion_table_injective`, `sixteenSteps_injective`, `setup_steps_injective`: the two halves
+                                      of the argument on the model itself (`init_stages`: `init` is
+                                      their composition) — the second for arbitrary table contents;
      B1  `init_injective`             `Hc128Core::init` is injective on 8-word seeds — already the
                                       tables differ (`init_table_injective`; the counter is always 0);
      B2  `fromSeedCore_injective`, `fromSeed_injective`   `from_seed` is injective on 32-byte seeds;
@@ -38,17 +41,7 @@ theorem spec_expansion_injective (K IV K' IV' : Vector U32 4)
     (hQ : ∀ j, j < 512 → (expand K IV).Q j = (expand K' IV').Q j) : K = K' ∧ IV = IV' := by
   have hW := Hc128InitInj.W_back 256
     (fun j h1 h2 => Hc128InitInj.expand_agree (K := K) (IV := IV) (K' := K') (IV' := IV') ⟨hP, hQ⟩ j h1 (by omega))
-  have k : ∀ i (hi : i < 4), K[i] = K'[i] := by
-    intro i hi
-    have := hW i (by omega)
-    rw [W_key K IV (by omega), W_key K' IV' (by omega)] at this
-    simpa only [Nat.mod_eq_of_lt hi] using this
-  have v : ∀ i (hi : i < 4), IV[i] = IV'[i] := by
-    intro i hi
-    have := hW (8 + i) (by omega)
-    rw [W_iv K IV (by omega) (by omega), W_iv K' IV' (by omega) (by omega)] at this
-    simpa only [Nat.add_sub_cancel_left, Nat.mod_eq_of_lt hi] using this
-  exact ⟨Vector.ext k, Vector.ext v⟩
+  exact Hc128InitInj.KIV_of_W (fun j hj => hW j (by omega))
 
 /-- A2 — one set-up step (either loop) at a position `i < 512` is injective on the tables -/
 theorem spec_setup_step_injective (s₁ s₂ : Wu.State) (i : Nat) (hi : i < 512) :
@@ -64,6 +57,31 @@ theorem spec_init_injective (K IV K' IV' : Vector U32 4)
   Hc128InitInj.initState_injective ⟨hP, hQ⟩
 
 /-! # B. the model of `Hc128Core::init` / `from_seed` -/
+
+/-- B0 (i) — the table that `init` has built when the two expansion loops are done (before the
+    1024 set-up steps) determines the seed -/
+theorem expansion_table_injective (a b : List U32) (ha : a.length = 8) (hb : b.length = 8)
+    (h : Hc128R.stage4 (Hc128R.stage3 (Hc128R.stage2 (Hc128R.stage1 a)))
+       = Hc128R.stage4 (Hc128R.stage3 (Hc128R.stage2 (Hc128R.stage1 b)))) : a = b :=
+  Hc128InitInj.expansion_t_injective a b ha hb h
+
+/-- B0 (ii) — `sixteen_steps` (16 set-up steps, each output written back into the table) is
+    injective on cores with a 1024-word table and a counter that is a multiple of 16; proved on
+    the model directly, for arbitrary table contents -/
+theorem sixteenSteps_injective (c₁ c₂ : Core) (s₁ : c₁.t.size = 1024) (s₂ : c₂.t.size = 1024)
+    (m₁ : c₁.counter % 16 = 0) (h : Hc128.sixteenSteps c₁ = Hc128.sixteenSteps c₂) : c₁ = c₂ :=
+  Hc128InitInj.sixteenSteps_inj s₁ s₂ m₁ h
+
+/-- B0 (ii) — the 64 `sixteen_steps` calls of `init` are injective on 1024-word tables -/
+theorem setup_steps_injective (t₁ t₂ : Array U32) (s₁ : t₁.size = 1024) (s₂ : t₂.size = 1024)
+    (h : Hc128R.stage5 t₁ = Hc128R.stage5 t₂) : t₁ = t₂ :=
+  Hc128InitInj.stage5_inj s₁ s₂ h
+
+/-- `init` is the composition of these stages (definitional) -/
+theorem init_stages (seed : List U32) :
+    Hc128.init seed =
+      { Hc128R.stage5 (Hc128R.stage4 (Hc128R.stage3 (Hc128R.stage2 (Hc128R.stage1 seed)))) with
+        counter := 0 } := Hc128R.init_eq seed
 
 /-- B1 — two 8-word seeds with the same table after `init` are equal -/
 theorem init_table_injective (a b : List U32) (ha : a.length = 8) (hb : b.length = 8)
@@ -158,6 +176,7 @@ example : ([1, 2, 3, 4, 5, 6, 7, 8] : List U32).length = 8 := rfl
 example : (List.replicate 32 (0 : U8)).length = 32 ∧ (List.replicate 31 (0 : U8) ++ [1]).length = 32 := by
   decide
 example (seed : List U8) : Hc128Inj.WF (Hc128.fromSeedCore seed) := fromSeedCore_WF seed
+example : ∃ c : Core, c.t.size = 1024 ∧ c.counter % 16 = 0 := ⟨⟨Array.replicate 1024 0, 0⟩, by simp, rfl⟩
 
 example : Hc128.init [0, 0, 0, 0, 0, 0, 0, 0] ≠ Hc128.init [0, 0, 0, 0, 1, 0, 0, 0] := fun h =>
   absurd (init_injective _ _ rfl rfl h) (by decide)
@@ -184,6 +203,10 @@ end Rngs.Extra.Hc128KeySchedule
 #print axioms Rngs.Extra.Hc128KeySchedule.spec_expansion_injective
 #print axioms Rngs.Extra.Hc128KeySchedule.spec_setup_step_injective
 #print axioms Rngs.Extra.Hc128KeySchedule.spec_init_injective
+#print axioms Rngs.Extra.Hc128KeySchedule.expansion_table_injective
+#print axioms Rngs.Extra.Hc128KeySchedule.sixteenSteps_injective
+#print axioms Rngs.Extra.Hc128KeySchedule.setup_steps_injective
+#print axioms Rngs.Extra.Hc128KeySchedule.init_stages
 #print axioms Rngs.Extra.Hc128KeySchedule.init_table_injective
 #print axioms Rngs.Extra.Hc128KeySchedule.init_injective
 #print axioms Rngs.Extra.Hc128KeySchedule.fromSeedCore_injective
